@@ -53,7 +53,10 @@ def random_send_script(rng):
     tp = topo(kind, n)
     dst = tp["dst"]
     ops = []
-    if rng.random() < 0.5:
+    # a run that ends with a restart from a snapshot the monitors have overtaken: the payer is idle when the
+    # snapshot is taken and no payment id is used twice (see the recorded findings in c03.py)
+    stale_run = rng.random() < 0.12
+    if rng.random() < 0.5 and not stale_run:
         ops.append({"op": "hold", "node": 0, "on": True})
     npay = rng.choice([1, 1, 2])
     pays = []
@@ -93,8 +96,13 @@ def random_send_script(rng):
             pay, o = new_payment(p)
             pays.append(pay)
             ops += o
-        if rng.random() < 0.4:
+        if rng.random() < 0.4 and not stale_run:
             ops += body(rng, tp, pays, rng.randint(1, 5))
+    if stale_run:
+        ops += [{"op": "pump"}] * rng.choice([0, 1, 1]) + [{"op": "reconnect_all"}, {"op": "pump"}, {"op": "save", "node": 0}]
+        ops += [o for o in body(rng, tp, pays, rng.randint(2, 14)) if o["op"] not in ("send", "save", "restart", "hold")]
+        ops += [{"op": "restart", "node": 0, "use": "stale"}, {"op": "settle"}]
+        return {"cfg": tp["cfg"], "ops": ops}
     ops += body(rng, tp, pays, rng.randint(4, 22))
     ops.append({"op": "settle"})
     if rng.random() < 0.3:
